@@ -68,17 +68,21 @@ Writes == {"write"}
 \* operations that would open a fifo block for ever: never generated
 OpensFifo(t, segs) == LET w == Resolve(t, segs, TRUE) IN w.r = "node" /\ t[w.p].k = "p"
 Blocks(t, o) ==
-    \/ Escapes(t, o.p) \/ (o.op \in {"copy", "copy_lim", "rename"} /\ Escapes(t, o.q))      \* would act outside the private root
-    \/ o.op \in Writes \cup {"oopen", "read", "copy", "copy_lim", "remove_dir_all", "read_dir"} /\ OpensFifo(t, o.p)
-    \/ o.op \in {"copy", "copy_lim"} /\ OpensFifo(t, o.q)
+    \/ Escapes(t, o.p) \/ (o.op \in {"copy", "copy_lim", "fcopy", "rename"} /\ Escapes(t, o.q))      \* would act outside the private root
+    \/ o.op \in Writes \cup {"oopen", "read", "copy", "copy_lim", "fcopy", "fcopy_x", "remove_dir_all", "read_dir"} /\ OpensFifo(t, o.p)
+    \/ o.op \in {"copy", "copy_lim", "fcopy"} /\ OpensFifo(t, o.q)
 Ops(t) == {o \in {Op1(op, p) : op \in Unary, p \in Targets}
                  \cup {OpC(op, p, c) : op \in Writes, p \in Targets, c \in {S, M}}
                  \cup {Op2(op, p, q) : op \in {"copy", "rename"}, p \in Sources, q \in Targets}
                  \cup (IF OpSet = "all" THEN {OpF(p, S, f) : p \in OpenTargets, f \in AllFlags} ELSE {})
                  \cup (IF OpSet = "all" THEN {[op |-> "copy_lim", p |-> p, q |-> q, c |-> [n |-> lim, b |-> <<>>, h |-> ""], f |-> <<>>] :
                                                  p \in {<<"b", "a">>, <<"c">>, <<"a">>}, q \in {<<"a">>, <<"b", "a">>, <<"a", "b">>, <<"b", "x">>},
-                                                 lim \in {1, 3}} ELSE {}) :
-              ~Blocks(t, o) /\ ~(o.op \in {"copy", "copy_lim"} /\ CopySameNode(t, o.p, o.q))}
+                                                 lim \in {1, 3}} ELSE {})
+                 \cup (IF OpSet = "all" THEN {[op |-> "fcopy", p |-> p, q |-> q, c |-> [n |-> k, b |-> <<>>, h |-> ""], f |-> <<>>] :
+                                                 p \in {<<"b", "a">>, <<"c">>}, q \in {<<"a">>, <<"a", "b">>, <<"b", "x">>}, k \in {0, 2, 9}}
+                                         \cup {[op |-> "fcopy_x", p |-> p, q |-> <<>>, c |-> [n |-> k, b |-> <<>>, h |-> ""], f |-> <<>>] :
+                                                 p \in {<<"b", "a">>, <<"c">>, <<"a">>}, k \in {0, 2, 9}} ELSE {}) :
+              ~Blocks(t, o) /\ ~(o.op \in {"copy", "copy_lim", "fcopy"} /\ CopySameNode(t, o.p, o.q))}
 
 Picks == IF Mode = "picks" THEN ndJsonDeserialize(IOEnv.PICKS) ELSE <<>>
 KindSeq   == <<"read", "create_dir", "create_dir_all", "remove_dir_all", "remove_file", "remove_dir", "exists",
